@@ -75,7 +75,7 @@ package freelist
 // parallel slices ids/alloctx stay paired and that no page changes its pending transaction.
 //@ uninterp func galloc(p common.Pgid) common.Txid
 //@ uninterp func gpend(p common.Pgid) common.Txid
-//@ pure func reptxp(x *txPending, tid common.Txid) bool = x != nil && len(x.ids) == len(x.alloctx) && allocated(arrayof(x.ids)) && allocated(arrayof(x.alloctx)) && (forall k int :: 0 <= k && k < len(x.ids) ==> x.alloctx[k] == galloc(x.ids[k]) && gpend(x.ids[k]) == tid)
+//@ pure func reptxp(x *txPending, tid common.Txid) bool = x != nil && len(x.ids) == len(x.alloctx) && (forall k int :: 0 <= k && k < len(x.ids) ==> x.alloctx[k] == galloc(x.ids[k]) && gpend(x.ids[k]) == tid)
 //@ pure func reppend(t *shared) bool = t.pending != nil && (forall tid common.Txid :: has(t.pending, tid) ==> reptxp(t.pending[tid], tid))
 //@ pure func seppend(t *shared) bool = (forall a common.Txid, b common.Txid :: a != b && has(t.pending, a) && has(t.pending, b) ==> t.pending[a] != t.pending[b] && (len(t.pending[a].ids) == 0 || len(t.pending[b].ids) == 0 || (arrayof(t.pending[a].ids) != arrayof(t.pending[b].ids) && arrayof(t.pending[a].alloctx) != arrayof(t.pending[b].alloctx)))) && (forall a common.Txid :: has(t.pending, a) ==> len(t.pending[a].ids) == 0 || arrayof(t.pending[a].alloctx) != arrayof(t.readonlyTXIDs))
 //@ pure func readerssame(t *shared) bool = len(t.readonlyTXIDs) == old(len(t.readonlyTXIDs)) && arrayof(t.readonlyTXIDs) == old(arrayof(t.readonlyTXIDs)) && offof(t.readonlyTXIDs) == old(offof(t.readonlyTXIDs)) && (forall j int :: 0 <= j && j < len(t.readonlyTXIDs) ==> t.readonlyTXIDs[j] == old(t.readonlyTXIDs[j]))
@@ -97,6 +97,7 @@ package freelist
 //@   loop 0 invariant [outside] forall tid common.Txid :: (tid < begin || tid > end) && old(has(t.pending, tid)) ==> has(t.pending, tid)
 //@   loop 0 invariant [msafe] forall k int :: 0 <= k && k < len(m) ==> begin <= galloc(m[k]) && galloc(m[k]) <= end && begin <= gpend(m[k]) && gpend(m[k]) <= end
 //@   loop 0 invariant [mfresh] fresh(arrayof(m)) && len(m) >= 0
+//@   loop 0 invariant [alloc] forall tid common.Txid :: has(t.pending, tid) ==> allocated(arrayof(t.pending[tid].ids)) && allocated(arrayof(t.pending[tid].alloctx))
 //@   loop 0 invariant [ghost] gfree == old(gfree) && t.Interface == old(t.Interface) && t.pending == old(t.pending)
 //@   loop 0 invariant [readers] readerssame(t)
 //@   loop 1 invariant [i] 0 <= i && i <= len(txp.ids)
@@ -104,6 +105,7 @@ package freelist
 //@   loop 1 invariant [sep] seppend(t)
 //@   loop 1 invariant [msafe] forall k int :: 0 <= k && k < len(m) ==> begin <= galloc(m[k]) && galloc(m[k]) <= end && begin <= gpend(m[k]) && gpend(m[k]) <= end
 //@   loop 1 invariant [mfresh] fresh(arrayof(m)) && len(m) >= 0
+//@   loop 1 invariant [alloc] forall tid common.Txid :: has(t.pending, tid) ==> allocated(arrayof(t.pending[tid].ids)) && allocated(arrayof(t.pending[tid].alloctx))
 //@   loop 1 invariant [readers] readerssame(t)
 //@   loop 1 invariant [cur] begin <= tid && tid <= end && has(t.pending, tid) && t.pending[tid] == txp
 
@@ -123,13 +125,14 @@ package freelist
 //@   ensures [rep] reppend(t) && seppend(t)
 //@   ensures [safe] forall p common.Pgid, r common.Txid :: gfree[ifaceref(t.Interface)][p] && !old(gfree[ifaceref(t.Interface)][p]) && old(isreader(t, r)) ==> !(galloc(p) <= r && r < gpend(p))
 //@   ensures [freekept] forall p common.Pgid :: old(gfree[ifaceref(t.Interface)][p]) ==> gfree[ifaceref(t.Interface)][p]
-//@   ensures [readers] len(t.readonlyTXIDs) == old(len(t.readonlyTXIDs)) && (forall r common.Txid :: isreader(t, r) == old(isreader(t, r)))
+//@   ensures [readers] len(t.readonlyTXIDs) == old(len(t.readonlyTXIDs)) && (forall r common.Txid :: isreader(t, r) ==> old(isreader(t, r))) && (forall r common.Txid :: old(isreader(t, r)) ==> isreader(t, r))
 //@   modifies gfree, mapof(t.pending), all("txPending.ids"), all("txPending.alloctx"), all("txPending.lastReleaseBegin"), allelems("common.Pgid"), allelems("common.Txid"), all("array.ids"), all("hashMap.freePagesCount"), allmaps("uint64", "freelist.pidSet"), allmaps("common.Pgid", "uint64")
 //@   loop 0 invariant [rep] reppend(t) && seppend(t)
 //@   loop 0 invariant [hdr] t.Interface == old(t.Interface) && len(t.readonlyTXIDs) == old(len(t.readonlyTXIDs)) && arrayof(t.readonlyTXIDs) == old(arrayof(t.readonlyTXIDs)) && offof(t.readonlyTXIDs) == old(offof(t.readonlyTXIDs))
 //@   loop 0 invariant [sorted] forall a int, b int :: 0 <= a && a <= b && b < len(t.readonlyTXIDs) ==> t.readonlyTXIDs[a] <= t.readonlyTXIDs[b]
 //@   loop 0 invariant [bound] forall a int :: 0 <= a && a < len(t.readonlyTXIDs) ==> t.readonlyTXIDs[a] < 18446744073709551615
-//@   loop 0 invariant [perm] (forall r common.Txid :: isreader(t, r) == old(isreader(t, r)))
+//@   loop 0 invariant [perm1] forall a int :: 0 <= a && a < len(t.readonlyTXIDs) ==> (let r := t.readonlyTXIDs[a] in old(isreader(t, r)))
+//@   loop 0 invariant [perm2] forall a int :: 0 <= a && a < old(len(t.readonlyTXIDs)) ==> (let r := old(t.readonlyTXIDs[a]) in isreader(t, r))
 //@   loop 0 invariant [minid] (rangeindex == 0-1 ==> minid == (len(t.readonlyTXIDs) > 0 ? t.readonlyTXIDs[0] : 18446744073709551615)) && (rangeindex >= 0 ==> minid == t.readonlyTXIDs[rangeindex] + 1)
 //@   loop 0 invariant [safe] forall p common.Pgid, a int :: gfree[ifaceref(t.Interface)][p] && !old(gfree[ifaceref(t.Interface)][p]) && 0 <= a && a < len(t.readonlyTXIDs) ==> !(galloc(p) <= t.readonlyTXIDs[a] && t.readonlyTXIDs[a] < gpend(p))
 //@   loop 0 invariant [freekept] forall p common.Pgid :: old(gfree[ifaceref(t.Interface)][p]) ==> gfree[ifaceref(t.Interface)][p]
